@@ -66,12 +66,27 @@ def run(tier="quick", seed=0):
                 why = "the payload of a packet decoded from a bytearray changed when the buffer was overwritten afterwards"
         except Exception as e:      # noqa  (the real code raising, or a layout clause indexing past the bytes produced)
             ok, why = False, "%s: %s" % (type(e).__name__, e)
+        # "the present arguments": every pattern of present / absent arguments, also with gaps (arg2 without arg1, arg3 alone): each
+        # present argument follows the present ones before it, nothing stands in for an absent one
+        try:
+            import types as _t
+            pat = (i // 3) % 8
+            gargs = [rng.choice(edge32) if pat >> j & 1 else None for j in range(3)]
+            gp = SCPPacket(cmd_rc=0x1234, seq=0x5678, arg1=gargs[0], arg2=gargs[1], arg3=gargs[2], **f)
+            gb = gp.bytestring
+            ev += 1
+            distinct.add(("pattern", pat, len(f["data"])))
+            gwant = _t.SimpleNamespace(cmd_rc=0x1234, seq=0x5678, arg1=gargs[0], arg2=gargs[1], arg3=gargs[2], **f)
+            if not S.ScpBytestringAnyArguments.ensures_present_arguments_in_order_without_gaps(gwant, gb):
+                ok, why, args = False, "the bytes of a packet whose present arguments are %r are not header, command, sequence, those arguments in order, payload: %s" % (gargs, gb.hex()), gargs
+        except Exception as e:      # noqa
+            ok, why = False, "%s: %s" % (type(e).__name__, e)
         if not ok:
             viol.append({"id": "pkt_%d" % i, "clause": "packet_contract", "why": why or "a contract clause is false on the bytes / packet the real code produced",
                          "inputs": {"fields": {k2: repr(v) for k2, v in f.items()}, "args": args}})
         if i < 2:
             samples.append({"packet": {k2: repr(v) for k2, v in f.items()}, "args": args, "bytes": b.hex()})
     return {"name": "c15_packets", "evaluations": ev, "distinct_nontrivial": len(distinct),
-            "rule": "%d seeded packets with boundary-valued fields, 0-3 arguments, payload lengths 0,1,3,4,11,12,40; every truncation 14..30 x n_args 0..3 decoded; every fifth packet built from numpy integers; packets decoded from a bytearray that is overwritten afterwards keep their payload; contract text evaluated natively (non-trivial/distinct: (length, n_args, args present) triples)" % n,
+            "rule": "%d seeded packets with boundary-valued fields, 0-3 leading arguments and every one of the 8 patterns of present / absent arguments (gaps included), payload lengths 0,1,3,4,11,12,40; every truncation 14..30 x n_args 0..3 decoded; every fifth packet built from numpy integers; packets decoded from a bytearray that is overwritten afterwards keep their payload; contract text evaluated natively (non-trivial/distinct: (length, n_args, args present) triples)" % n,
             "bound": "%d packets" % n, "exhaustive": False, "label": "bounded", "samples": samples,
             "violations": viol[:5], "seconds": round(time.time() - t0, 2)}
